@@ -599,7 +599,27 @@ func (p *process) SendPID(to gen.PID, message any) error {
 		}
 
 		if ok := queue.Push(qm); ok == false {
-			return gen.ErrProcessMailboxFull
+			// the same fallback handling as in RouteSendPID
+			if p.fallback.Enable == false {
+				return gen.ErrProcessMailboxFull
+			}
+
+			if p.fallback.Name == p.name {
+				return gen.ErrProcessMailboxFull
+			}
+
+			fbm := gen.MessageFallback{
+				PID:     p.pid,
+				Tag:     p.fallback.Tag,
+				Message: message,
+			}
+			fbto := gen.ProcessID{Name: p.fallback.Name, Node: p.node.name}
+			options := gen.MessageOptions{
+				Priority:         p.priority,
+				Compression:      p.compression,
+				KeepNetworkOrder: p.keeporder,
+			}
+			return p.node.RouteSendProcessID(p.pid, fbto, options, fbm)
 		}
 		
 		atomic.AddUint64(&p.messagesIn, 1)
